@@ -207,6 +207,7 @@ def open_case(kind):
                 I.assume(I.not_(raw[:16] == SF.SIGNATURE))
             fs.create_raw("x.tdf", raw)
             for how in ("with", "getter"):
+                h0 = fs.open_handles()
                 try:
                     if how == "with":
                         with t as tt:
@@ -218,7 +219,8 @@ def open_case(kind):
                     exc = e
                 I.observe(f"exc.{how}", type(exc).__name__ if exc else None)
                 P("opens_only_with_the_TDF_signature", exc is not None, f"{how}: object created before the content was replaced")
-            P("no_handle_left_open", fs.open_handles() == 0)
+                if how == "getter":
+                    P("implicitly_opened_handle_closed_after_refusal", fs.open_handles() == h0)
             I.goal("refused")
             return
         if kind.startswith("short"):
@@ -250,7 +252,6 @@ def open_case(kind):
             P("valid_signature_is_accepted", I.not_(sig_ok), type(exc).__name__)
         obs = fs.obs("x.tdf")
         P("open_attempt_leaves_file_unchanged", obs.length == pre.length)
-        P("no_handle_left_open", fs.open_handles() == 0, "after the open attempt")
     return h
 
 
